@@ -1,1 +1,105 @@
 //! Facade for `service/ip_vote.rs`.
+//!
+//! `service::ip_vote` is a private module of `service` and cannot be named from here, and this
+//! facade is add-only. The source file is therefore compiled a second time as a child of this
+//! module (the same text, nothing is copied), and its `IpVote` is wrapped.
+
+use enr::NodeId;
+use std::{
+    net::{Ipv4Addr, SocketAddr, SocketAddrV4, SocketAddrV6},
+    time::Duration,
+};
+
+#[path = "../service/ip_vote.rs"]
+#[allow(dead_code, unused_imports)]
+mod ip_vote_src;
+
+/// Wrapper around the crate-private `IpVote`.
+pub struct IpVote(ip_vote_src::IpVote);
+
+impl IpVote {
+    /// `IpVote::new` (panics for a minimum below 2).
+    pub fn new(minimum_threshold: usize, vote_duration: Duration) -> Self {
+        IpVote(ip_vote_src::IpVote::new(minimum_threshold, vote_duration))
+    }
+
+    /// `IpVote::insert`.
+    pub fn insert(&mut self, key: NodeId, socket: SocketAddr) {
+        self.0.insert(key, socket)
+    }
+
+    /// `IpVote::majority`.
+    pub fn majority(&mut self) -> (Option<SocketAddrV4>, Option<SocketAddrV6>) {
+        self.0.majority()
+    }
+
+    /// `IpVote::has_minimum_threshold`.
+    pub fn has_minimum_threshold(&mut self) -> (bool, bool) {
+        self.0.has_minimum_threshold()
+    }
+}
+
+/// The clear-majority thresholds the implementation applies, derived from the behaviour of
+/// `IpVote::majority` itself (the threshold expression is inlined in a private function):
+/// element `i` is, for a leader with `n = 3 + i` votes, the smallest number of votes for one
+/// rival address at which `majority()` no longer returns the leader. `None` if the behaviour is
+/// not a threshold at all for that `n` (leader not returned although no rival has a vote, or
+/// still returned with a rival at `n` votes).
+///
+/// Uses minimum 2 and a vote duration of a day; a "removed" rival vote is a voter that changes
+/// its vote to an address of its own (one vote each, which is below every threshold >= 2).
+pub fn thresholds_via_majority(upto: usize) -> Vec<Option<usize>> {
+    let mut votes = IpVote::new(2, Duration::from_secs(86_400));
+    let leader = SocketAddrV4::new(Ipv4Addr::new(10, 0, 0, 1), 9000);
+    let rival = SocketAddrV4::new(Ipv4Addr::new(10, 0, 0, 1), 9001);
+    let id = |class: u8, i: usize| {
+        let mut raw = [0u8; 32];
+        raw[0] = class;
+        raw[24..32].copy_from_slice(&(i as u64).to_be_bytes());
+        NodeId::new(&raw)
+    };
+    let junk = |i: usize| {
+        SocketAddrV4::new(
+            Ipv4Addr::new(172, 16, (i >> 8) as u8, i as u8),
+            10_000 + (i >> 16) as u16,
+        )
+    };
+    let mut out = Vec::new();
+    // voters 0..rivals of class 2 currently vote for `rival`
+    let mut rivals = 0usize;
+    for n in 1..=upto {
+        votes.insert(id(1, n), leader.into());
+        if n < 3 {
+            continue;
+        }
+        let wins = |votes: &mut IpVote| votes.majority().0 == Some(leader);
+        // shrink until the leader wins
+        let mut ok = true;
+        while !wins(&mut votes) {
+            if rivals == 0 {
+                ok = false;
+                break;
+            }
+            rivals -= 1;
+            votes.insert(id(2, rivals), junk(rivals).into());
+        }
+        if !ok {
+            out.push(None);
+            continue;
+        }
+        // grow until the leader no longer wins
+        loop {
+            if rivals > n {
+                ok = false;
+                break;
+            }
+            votes.insert(id(2, rivals), rival.into());
+            rivals += 1;
+            if !wins(&mut votes) {
+                break;
+            }
+        }
+        out.push(if ok { Some(rivals) } else { None });
+    }
+    out
+}
